@@ -367,6 +367,7 @@ def builtin (f : Name) (args : List (V ω)) (kw : List (Name × V ω)) : Option 
   else if f = fBytes then
     match args, kw with
     | [.tuple l], [] => some (match bytesOfInts l with | .ok b => .ok (.bytes b) | .error e => .error e)
+    | [.bytes b], [] => some (.ok (.bytes b))            -- `bytes(bytearray)`: bytearrays are carried as bytes
     | _, _ => some (raiseX xUnsupported)
   else if f = fIntFromBytes then
     -- int.from_bytes(b, "little", signed=False)
